@@ -2,6 +2,7 @@
 import json, os, sys, time
 from vlib import *
 import kv
+import bt
 
 KV_ASSUME = [
     "TLC and the hand-written correspondence between KVOps!Do and the public API calls issued by harness/src/exec.rs",
@@ -54,7 +55,35 @@ def spread(n_active, n_fill, n_ghost=0):
     return n, act, fill, sorted(ghosts)
 
 
-def finish_kv(v, tier, seed, mc, gen_stats, tr, rule):
+def cluster(n_active, n_fill, where):
+    """the active keys are consecutive: the smallest ("head"), the largest ("tail") or the middle ones
+    ("mid") -- whole leaves, and the left-most / right-most leaf in particular, can be emptied"""
+    n = n_active + n_fill
+    lo = {"head": 0, "tail": n - n_active, "mid": (n - n_active) // 2}[where]
+    act = list(range(lo, lo + n_active))
+    return n, act, [k for k in range(n) if k not in act]
+
+
+def add_btree(cov, btree):
+    if btree:
+        cov["btree"] = btree
+        cov["states"] += btree["states"]
+        cov["transitions"] += btree["transitions"]
+        cov["traces_validated_against_impl"] += btree["replays"]
+        cov["rule"] += BT_RULE
+    return cov
+
+
+BT_RULE = (" BTree.tla leg: the rebalance / spill code transcribed operator by operator; MC_BTree checks every history of "
+           "<= MaxOps put/delete per transaction and <= MaxTx transactions over seed trees of up to three levels (commit never "
+           "panics, the new tree lists exactly the reference map, is a search tree, shares / leaks / re-references no page; "
+           "get and cursor scan inside the transaction equal the reference map); the pinned code's variants of the model "
+           "must violate (vacuity guards); every generated history is run in the real code against the reference map, and the "
+           "page structure the independent parser finds in the file is compared with the one the model computed "
+           "(a differing structure is judged by Trace_Shape, not reported by itself).")
+
+
+def finish_kv(v, tier, seed, mc, gen_stats, tr, rule, btree=None):
     cov = dict(states=mc["states"] + tr.get("states", 0) + gen_stats.get("states", 0),
                transitions=mc["transitions"] + tr.get("states", 0) + gen_stats.get("transitions", 0),
                traces_validated_against_impl=tr.get("histories", 0) + gen_stats.get("replays", 0),
@@ -65,6 +94,7 @@ def finish_kv(v, tier, seed, mc, gen_stats, tr, rule):
                model=dict(module="MC_KV", states=mc["states"], transitions=mc["transitions"]),
                generated=gen_stats, traces=dict((k, tr.get(k)) for k in ("events", "histories", "states")),
                exhaustive=False)
+    add_btree(cov, btree)
     return v.finish(tier, seed, "model_checking", cov, KV_ASSUME)
 
 
@@ -114,6 +144,10 @@ def check_C01(tier, seed):
         act = list(range(8, 16))
         gens.append(("run8", gen_cfg(28, act, [k for k in range(28) if k not in act], pre=("kv",),
                                      acts=("keep", "del"), ends=("commit",)), ["three"]))
+        for where in ("head", "tail"):
+            n, act, fill = cluster(4, 6, where)
+            gens.append((where + "4", gen_cfg(n, act, fill, pre=("kv",), acts=("keep", "del"),
+                                              ends=("commit", "reopen")), ["two"]))
         # one transaction that needs more than one 8 MiB extension step of the file
         n, act, fill = spread(4, 0)
         gens.append(("grow4", gen_cfg(n, act, fill, pre=("kv",), acts=("keep", "put"), ends=("commit", "reopen")),
@@ -143,7 +177,22 @@ def check_C01(tier, seed):
                 for j, nk in enumerate([10, 24, 48])]
     gs = run_gens(v, gens, "C01")
     tr = kv.kv_trace_runs(v, runs, "C01")
-    return finish_kv(v, tier, seed, mc, gs, tr,
+    if tier == "quick":
+        btree = bt.legs(v, "C01", readback=False,
+                        mcs=[("e7", 7, [], 3, 3, {})],
+                        gens=[("inc14", 15, bt.seed_inc(14), 3, 1, {}),
+                              ("bulk14", 15, bt.seed_bulk(14), 2, 1, {})])
+    else:
+        btree = bt.legs(v, "C01", readback=False,
+                        mcs=[("e8", 8, [], 3, 3, {}), ("inc14o4", 15, bt.seed_inc(14), 4, 1, {}),
+                             ("inc14d6", 15, bt.seed_inc(14), 6, 1, dict(kinds=("del",)))],
+                        gens=[("inc14", 15, bt.seed_inc(14), 3, 1, {}),
+                              ("inc14x2", 15, bt.seed_inc(14), 2, 2, {}),
+                              ("bulk14", 15, bt.seed_bulk(14), 3, 1, {}),
+                              ("dec12", 13, bt.seed_dec(12), 2, 2, {}),
+                              ("sparse", 15, bt.seed_sparse(14, [2, 3, 5, 9, 12]), 3, 1, {}),
+                              ("walk", 16, [], 4, 8, dict(simulate="num=3000", workers=1))])
+    return finish_kv(v, tier, seed, mc, gs, tr, btree=btree, rule=
                      "spec->impl: every function Active -> PreKinds x Acts x Ends enumerated by TLC (Gen_KV), each "
                      "behaviour replayed under each profile and every result compared with KVOps!Do; impl->spec: "
                      "seeded random histories recorded and validated by TLC (Trace_KV). distinct_nontrivial = "
@@ -163,6 +212,11 @@ def check_C07(tier, seed):
         n, act, fill = spread(3, 2)
         gens.append(("rbmix3", gen_cfg(n, act, fill, readback=True, ends=("drop",), pre=("absent", "kv", "bucket"),
                                        acts=("keep", "put", "del", "mkb", "delb")), ["two"]))
+        # whole leaves emptied inside the transaction, the left-most and the right-most one in particular
+        for where in ("head", "tail"):
+            n, act, fill = cluster(4, 6, where)
+            gens.append(("rb" + where + "4", gen_cfg(n, act, fill, readback=True, ends=("commit",), pre=("kv",),
+                                                     acts=("keep", "del")), ["two", "three"]))
         runs = [dict(profile=p, seed=seed * 100 + i, n=5, len=40, nkeys=10, nvals=4, args=["--readback", "1"])
                 for i, p in enumerate(["two", "three", "overflow", "hibytes"])]
     else:
@@ -176,13 +230,32 @@ def check_C07(tier, seed):
         gens.append(("rbmix4", gen_cfg(n, act, fill, readback=True, ends=("drop", "commit"),
                                        pre=("absent", "kv", "bucket"),
                                        acts=("keep", "put", "del", "mkb", "delb", "gocb")), ["two", "overflow"]))
+        for where in ("head", "tail", "mid"):
+            n, act, fill = cluster(6, 10, where)
+            gens.append(("rb" + where + "6", gen_cfg(n, act, fill, readback=True, ends=("commit",), pre=("kv",),
+                                                     acts=("keep", "del", "put")), ["two", "three", "flat"]))
         runs = [dict(profile=p, seed=seed * 1000 + i * 10 + j, n=15, len=60, nkeys=nk, nvals=4,
                      args=["--readback", "1"])
                 for i, p in enumerate(["two", "three", "overflow", "hibytes", "longkey", "empty"])
                 for j, nk in enumerate([8, 20, 40])]
     gs = run_gens(v, gens, "C07")
     tr = kv.kv_trace_runs(v, runs, "C07")
-    return finish_kv(v, tier, seed, mc, gs, tr,
+    if tier == "quick":
+        btree = bt.legs(v, "C07", readback=True,
+                        gens=[("head", 15, bt.seed_inc(14), 3, 1, dict(opkeys=range(1, 7))),
+                              ("tail", 15, bt.seed_inc(14), 3, 1, dict(opkeys=range(9, 16))),
+                              ("e6", 6, [], 3, 2, {})])
+    else:
+        btree = bt.legs(v, "C07", readback=True,
+                        mcs=[("inc14o4", 15, bt.seed_inc(14), 4, 1, {})],
+                        gens=[("inc14", 15, bt.seed_inc(14), 3, 1, {}),
+                              ("head5", 15, bt.seed_inc(14), 5, 1, dict(opkeys=range(1, 7), kinds=("del",))),
+                              ("tail5", 15, bt.seed_inc(14), 5, 1, dict(opkeys=range(9, 15), kinds=("del",))),
+                              ("mid5", 15, bt.seed_inc(14), 5, 1, dict(opkeys=range(4, 10), kinds=("del",))),
+                              ("bulk14", 15, bt.seed_bulk(14), 3, 1, {}),
+                              ("e7", 7, [], 3, 3, {}),
+                              ("walk", 16, [], 4, 8, dict(simulate="num=3000", workers=1))])
+    return finish_kv(v, tier, seed, mc, gs, tr, btree=btree, rule=
                      "spec->impl: Gen_KV with ReadBack: after every operation of the write transaction the scan, "
                      "counter, seek and get of every active key, four ranges, buckets(), kv_pairs() and the "
                      "after-the-end probe are issued and compared with KVOps!Do on the transaction's view, over every "
@@ -205,6 +278,10 @@ def check_C08(tier, seed):
         n, act, fill, gh = spread(3, 2, 2)
         gens.append(("qmix", gen_cfg(n, act, fill, qkeys=range(n), ends=("commit",), pre=("kv", "bucket"),
                                      acts=("keep", "del", "delb")), ["two"]))
+        for where in ("head", "tail"):
+            n, act, fill = cluster(3, 5, where)
+            gens.append(("q" + where + "3", gen_cfg(n, act, fill, qkeys=range(n), ends=("commit",), pre=("kv",),
+                                                    acts=("keep", "del")), ["two"]))
         runs = [dict(profile=p, seed=seed * 100 + i, n=5, len=50, nkeys=14, nvals=3, args=["--readback", "1"])
                 for i, p in enumerate(["two", "three", "hibytes"])]
     else:
@@ -217,6 +294,10 @@ def check_C08(tier, seed):
         n, act, fill, gh = spread(3, 4, 3)
         gens.append(("qmix", gen_cfg(n, act, fill, qkeys=range(n), ends=("commit",), pre=("absent", "kv", "bucket"),
                                      acts=("keep", "put", "del", "delb", "mkb")), ["two", "three"]))
+        for where in ("head", "tail", "mid"):
+            n, act, fill = cluster(4, 8, where)
+            gens.append(("q" + where + "4", gen_cfg(n, act, fill, qkeys=range(n), ends=("commit",), pre=("kv",),
+                                                    acts=("keep", "del", "put")), ["two", "three"]))
         runs = [dict(profile=p, seed=seed * 1000 + i * 10 + j, n=15, len=60, nkeys=nk, nvals=3,
                      args=["--readback", "1"])
                 for i, p in enumerate(["two", "three", "hibytes", "longkey", "empty", "flat"])
@@ -319,7 +400,7 @@ def mc_page(tier, parts=("crash", "readers", "faults", "damage"), sensitive=()):
     return tot
 
 
-def finish_l1(v, tier, seed, mc, stats, rule):
+def finish_l1(v, tier, seed, mc, stats, rule, btree=None):
     cov = dict(states=mc["states"] + stats.get("states", 0), transitions=mc["transitions"] + stats.get("events", 0),
                traces_validated_against_impl=stats.get("traces", 0) + stats.get("replays", 0),
                evaluations=stats.get("events", 0), distinct_nontrivial=stats.get("commits", 0),
@@ -328,6 +409,7 @@ def finish_l1(v, tier, seed, mc, stats, rule):
                model=dict(module="PageStore", states=mc["states"], transitions=mc["transitions"]),
                recorded=dict((k, stats.get(k)) for k in ("events", "writes", "commits", "traces", "replays", "behaviours")),
                generated=stats.get("configs"), exhaustive=False)
+    add_btree(cov, btree)
     return v.finish(tier, seed, "model_checking", cov, L1_ASSUME)
 
 
@@ -378,7 +460,23 @@ def check_C05(tier, seed):
                 for j, nk in enumerate([10, 30])]
     l1_gens(v, gens, "C05", stats, scope=c05_scope)
     l1_runs(v, runs, "C05", stats, scope=c05_scope)
-    return finish_l1(v, tier, seed, mc, stats,
+    f1 = ("f1", 8, bt.seed_inc(5), 4, ["F1"], {})
+    f13 = ("f13", 15, bt.seed_inc(14), 6, ["F13"], dict(kinds=("del",), opkeys=range(9, 15)))
+    if tier == "quick":
+        btree = bt.legs(v, "C05", readback=False,
+                        mcs=[("inc14o3", 15, bt.seed_inc(14), 3, 1, {})], guards=[f1, f13],
+                        gens=[("sparse", 15, bt.seed_sparse(14, [2, 3, 5, 9, 12]), 3, 1, {}),
+                              ("dec12", 13, bt.seed_dec(12), 3, 1, {})])
+    else:
+        btree = bt.legs(v, "C05", readback=False,
+                        mcs=[("inc14o4", 15, bt.seed_inc(14), 4, 1, {}), ("e8", 8, [], 3, 3, {}),
+                             ("inc9d7", 10, bt.seed_inc(9), 7, 1, dict(kinds=("del",))),
+                             ("inc14x2", 15, bt.seed_inc(14), 2, 2, {})], guards=[f1, f13],
+                        gens=[("sparse", 15, bt.seed_sparse(14, [2, 3, 5, 9, 12]), 3, 2, dict(opkeys=range(1, 10))),
+                              ("dec12", 13, bt.seed_dec(12), 2, 2, {}),
+                              ("inc14d5", 15, bt.seed_inc(14), 5, 1, dict(kinds=("del",))),
+                              ("walk", 16, [], 5, 8, dict(simulate="num=3000", workers=1))])
+    return finish_l1(v, tier, seed, mc, stats, btree=btree, rule=
                      "every page image the library writes is decoded by the independent parser; TLC (Trace_Page) rebuilds the "
                      "page table and at every header write evaluates the structural predicates (ids, types, counts, strictly "
                      "ascending keys within and across pages, separators bound subtrees, elements inside their run, each page "
@@ -590,13 +688,14 @@ def check_C03(tier, seed):
     if tier == "quick":
         plans = [("gr8", 8, 8, 2, ["two", "three"], 60), ("gr8r3", 6, 8, 3, ["two"], 150)]
         runs = [dict(profile=p, seed=seed * 100 + i, n=4, len=70, nkeys=10, nvals=4,
-                     args=["--readback", "0", "--presized", "1", "--max-readers", "3"])
-                for i, p in enumerate(["two", "overflow"])]
+                     args=["--readback", "0", "--presized", "1", "--max-readers", "3", "--reader-churn", str(ch)])
+                for i, (p, ch) in enumerate([("two", 0), ("overflow", 0), ("two", 30), ("three", 30)])]
     else:
         plans = [("gr9", 10, 9, 2, ["two", "three", "overflow"], 100), ("gr9r3", 6, 9, 3, ["two", "three"], 300)]
-        runs = [dict(profile=p, seed=seed * 1000 + i * 10 + j, n=10, len=120, nkeys=nk, nvals=4,
-                     args=["--readback", "0", "--presized", "1", "--max-readers", "4"])
-                for i, p in enumerate(["two", "overflow", "three", "longkey"]) for j, nk in enumerate([10, 24])]
+        runs = [dict(profile=p, seed=seed * 1000 + i * 10 + j + ch * 3, n=10, len=120, nkeys=nk, nvals=4,
+                     args=["--readback", "0", "--presized", "1", "--max-readers", "4", "--reader-churn", str(ch)])
+                for i, p in enumerate(["two", "overflow", "three", "longkey"]) for j, nk in enumerate([10, 24])
+                for ch in (0, 30)]
     gs = dict(behaviours=0, replays=0, steps=0, states=0, transitions=0, samples=[], configs=[])
     for name, nk, steps, maxr, profiles, sample_every in plans:
         beh, s, t = gen_readers(name, nk, steps, maxr)
@@ -1156,6 +1255,30 @@ def replay(prop, path):
     """Re-executes the history stored in a replay file and prints what the last step yields."""
     r = json.load(open(path))
     build_harness()
+    if r.get("behaviour") is not None:
+        # a BTree.tla history: jvh btree-run on the one behaviour
+        d = scratch()
+        fn = os.path.join(d, "replay-bt.ndjson")
+        with open(fn, "w") as f:
+            f.write(json.dumps(r["behaviour"]) + "\n")
+        p = run_jvh(["btree-run", "--in", fn, "--out", fn + ".out", "--nkeys", str(r.get("nkeys", 16))])
+        out = read_lines(fn + ".out") if os.path.exists(fn + ".out") else []
+        for ln in out:
+            print(ln[:2000])
+        lines = [json.loads(x) for x in out]
+        bad = [o for o in lines if not o.get("summary") and o.get("problems")]
+        if r.get("structure") is not None:
+            import bt
+            v2 = Verdict(prop)
+            diff = [(r["behaviour"], o.get("got_shape")) for o in lines if not o.get("summary") and not o.get("shape_equal", True)]
+            if diff:
+                bt.shape_judgement(v2, diff, r.get("nkeys", 16), "replay")
+            bad = bad or v2.violations
+        if p.returncode != 0 or bad:
+            print("VIOLATION property=%s replay=%s" % (prop, path))
+            return 1
+        print("replay: the recorded deviation does not occur on this tree")
+        return 0
     hist = r.get("history")
     if hist is None:
         print("replay file has no history")
